@@ -188,6 +188,7 @@ func init() {
 			"(b) short adjacency sequences of 2-4 such tokens separated by nothing or by a comment, (c) generated style sheets / declaration lists with an injected error or a spliced fragment; tokenized with comments kept or skipped. " +
 			"Lists containing a parse-error token or an error-flagged string/url are excluded (counted). Oracle: Tokenize(Serialize(T)) equals T on type, unescaped value, numeric repr+value+integer flag, unit, hash id flag, unicode range and nesting, " +
 			"after dropping comments and merging adjacent white space; no parse error may appear. Modes 'rules'/'decls' apply the same relation to prelude/content/value lists of parsed rules and declarations. " +
+			"Unicode ranges with one-digit ends; adjacency lists may end with a comment. " +
 			"Non-trivial: the list has two adjacent non-white-space tokens or a token whose value needs escaping; distinct = distinct case JSON.",
 		ImportantLabels: []string{"adjacent-tokens", "needs-escape", "mode:rules", "mode:decls"},
 		Assumptions: []string{"adjacent white-space tokens (only possible after comment removal) are allowed to merge: the property ignores comments and white space carries no value",
